@@ -69,6 +69,14 @@ def make_case(idx):
             lines[R.randrange(len(lines))] = gen.long_line(R, R.choice(['ascii', kind]), cols * R.choice([2, 3, 4]))
         horiz = True
         lines[0] = gen.long_line(R, 'ascii', cols * R.choice([2, 3, 4]))      # the cursor starts on a long line
+        if R.random() < 0.4:
+            # rows of double-width characters at both parities: wherever the window's left edge falls, it cuts some of them in two
+            for par in R.sample([0, 1, 2, 3], R.randint(1, 3)):
+                wide = 'x' * par + ''.join(R.choice(['漢', '字', '日本', 'ａ', '語 ']) for _ in range(cols * 2))
+                if R.random() < 0.5:
+                    lines[0] = wide
+                else:
+                    lines.insert(R.randint(1, min(len(lines), max(1, rows - 2))), wide)
         targets = [cols - 1, cols, cols + 1, cols + 2, cols // 2, cols + cols // 2, cols + cols // 2 + 1, 2 * cols, 2 * cols + 1, 3 * cols, 1]
         prog = []
         for _ in range(R.randint(6, 24)):
@@ -81,6 +89,9 @@ def make_case(idx):
                 prog.append(R.choice(['w', 'b', 'e', '3l', '3h', 'l', 'h', 'j', 'k', '5w', '5b']))
             else:
                 prog.append(R.choice(['x', 'rZ', 'iab\x1b', 'D', 'u', '~', 'dw', 'A!\x1b']))
+        if R.random() < 0.3:
+            # from far right back to the columns around the first window's right edge
+            prog = ['$', '%d|' % R.choice([cols + 1, cols, cols + 2])] + prog
     rtl = False
     if not horiz and R.random() < 0.06:
         # right-to-left base direction with single-byte text (no reordering, no shaping): the rows are the mirror image of a window
